@@ -842,6 +842,9 @@ func BoolConst(v ssa.Value) (bool, bool) {
 	return constant.BoolVal(c.Value), true
 }
 
+// IsBoolConst reports whether v is a boolean constant.
+func IsBoolConst(v ssa.Value) bool { _, ok := BoolConst(v); return ok }
+
 // CondAtom normalises a boolean condition value under a polarity.
 func CondAtom(cond ssa.Value, truth bool) Atom {
 	for i := 0; i < 8; i++ {
